@@ -517,3 +517,8 @@ def telescoping_scans(ck, prog):
 def run(ck, prog):
     _run_pre_telescope(ck, prog)
     telescoping_scans(ck, prog)
+
+
+EXPLANATION += (" Telescoping (E2-telescope): a `scan` in categorical.rs that yields `boundary - state` stores that same boundary "
+                "as its next state, so the segment lengths between categorical columns add up to the column count (found and fixed: "
+                "find_new_idxs stored v after yielding v + 1 - state).")
